@@ -1,7 +1,5 @@
 (* Rt/UperStd.v — where the C's UPER encoder is the standard one.
-   [std_safe t]: no semi-constrained INTEGER and every CHOICE's generated
-   "to_canonical" table (the inverse permutation, see Uper.c_index) coincides
-   with the canonical index.  Under it the model of the C (std = false) and the
+   [std_safe t]: no semi-constrained INTEGER.  Under it the model of the C (std = false) and the
    X.691 reading (std = true) produce the same bits, for every value. *)
 From Coq Require Import ZArith List Lia Bool ZifyBool.
 From A1 Require Import Base.Bytes Rt.Types Rt.TypesInd Rt.Comb Rt.Der Rt.Uper.
@@ -22,7 +20,7 @@ Fixpoint std_safe (t : ty) : bool :=
   | TInt _ c => int_std_safe c
   | TSeq _ ms => forallb std_safe ms
   | TSeqOf _ _ e | TSetOf _ _ e => std_safe e
-  | TChoice alts => forallb std_safe alts && choice_ok alts
+  | TChoice alts => forallb std_safe alts
   | TTag _ t' | TOpt t' => std_safe t'
   | _ => true
   end.
@@ -79,12 +77,8 @@ Proof.
   - destruct v; try reflexivity. cbn [uper].
     rewrite (map_ext_val (uper false t) (uper true t)); [reflexivity|]. apply IHt. exact Hs.
   - destruct v; try reflexivity. cbn [uper].
-    apply andb_true_iff in Hs. destruct Hs as [Hs1 Hs2].
-    rewrite (enc_alt_ext (uper false) (uper true) v alts).
-    + destruct (enc_alt (uper true) v alts i) eqn:E; [|reflexivity].
-      unfold choice_index. rewrite (choice_ok_index alts i Hs2); [reflexivity|].
-      eapply enc_alt_some_lt; eauto.
-    + rewrite forallb_forall in Hs1. rewrite Forall_forall in *. intros a Ha. apply H; auto.
+    rewrite (enc_alt_ext (uper false) (uper true) v alts); [reflexivity|].
+    rewrite forallb_forall in Hs. rewrite Forall_forall in *. intros a Ha. apply H; auto.
   - cbn [uper]. destruct v; apply IHt; exact Hs.
   - destruct v; try reflexivity. cbn [uper]. apply IHt. exact Hs.
 Qed.
@@ -102,11 +96,14 @@ Proof.
   exists (TInt 8 (ICon (Some 5) None false)), (VInt 7). split; vm_compute; [reflexivity|discriminate].
 Qed.
 
-Theorem uper_choice_order_refuted :
-  exists t v, uper_encode false t v <> uper_encode true t v.
+(* The CHOICE index deviation (generated to_canonical/from_canonical tables swapped)
+   was a finding of this check and is repaired in /repo (commit b565b4c): the model
+   of the C now uses the canonical index.  What the old tables computed, and that it
+   differs from the canonical index on a non-involutive order, stays provable: *)
+Theorem old_choice_tables_were_not_canonical :
+  exists alts i, c_index alts i <> canonical_index alts i.
 Proof.
-  (* CHOICE { a [2] NULL, b [0] NULL, c [1] NULL }: tag order is b, c, a *)
-  exists (TChoice [TNull 10; TNull 2; TNull 6]), (VChoice 0 VNull). vm_compute. discriminate.
+  exists [TNull 10; TNull 2; TNull 6], 0%nat. vm_compute. discriminate.
 Qed.
 
 Example std_safe_example :
